@@ -128,3 +128,47 @@ package mapping
 //@   ensures [out-of-range-not-stored] ret(CanSet) && ret(validateValueRange) != nil ==> result == ret(validateValueRange) && calls(setSameKindValue) == 0 && calls(Set) == 0
 //@   ensures [never-stored-without-the-range-check] calls(setSameKindValue) >= 1 ==> calls(validateValueRange, mapValue, opts) == 1 && ret(validateValueRange) == nil && before(validateValueRange, setSameKindValue)
 //@   ensures [in-range-stored-once] ret(CanSet) && ret(validateValueRange) == nil ==> result == nil && calls(setSameKindValue) == 1 && arg(setSameKindValue, 2) == mapValue && before(validateValueRange, setSameKindValue)
+
+// ---------------- string sources: conversion, then range=, then the overflow-checked store (C05) ----------------
+// convertType: integers are parsed as full 64-bit decimal numbers (a parse failure - including out of int64/uint64
+// range - is an error, never a wrapped value); booleans accept exactly 1/true/0/false; strings pass through.
+//@ func convertType
+//@   prop C05
+//@   opaque Errorf, ToLower
+//@   let isInt = kind >= 2 && kind <= 6
+//@   let isUint = kind >= 7 && kind <= 11
+//@   let isFloat = kind == 13 || kind == 14
+//@   ensures [signed-parsed-exactly] isInt ==> calls(strconv.ParseInt, str, 10, 64) == 1 && (ret(strconv.ParseInt, 1) == nil ==> result1 == nil && typeis(result0, int64) && unbox(result0, int64) == ret(strconv.ParseInt, 0)) && (ret(strconv.ParseInt, 1) != nil ==> result1 != nil)
+//@   ensures [unsigned-parsed-exactly] isUint ==> calls(strconv.ParseUint, str, 10, 64) == 1 && (ret(strconv.ParseUint, 1) == nil ==> result1 == nil && typeis(result0, uint64) && unbox(result0, uint64) == ret(strconv.ParseUint, 0)) && (ret(strconv.ParseUint, 1) != nil ==> result1 != nil)
+//@   ensures [float-parsed] isFloat ==> calls(strconv.ParseFloat, str, 64) == 1 && (ret(strconv.ParseFloat, 1) != nil ==> result1 != nil)
+//@   ensures [string-verbatim] kind == 24 ==> result1 == nil && typeis(result0, string) && unbox(result0, string) == str
+//@   ensures [bool-exact-words] kind == 1 ==> (result1 == nil) == (ret(ToLower) == "1" || ret(ToLower) == "true" || ret(ToLower) == "0" || ret(ToLower) == "false") && (result1 == nil ==> unbox(result0, bool) == (ret(ToLower) == "1" || ret(ToLower) == "true"))
+//@   ensures [unsupported-kind-is-error] kind != 1 && !isInt && !isUint && !isFloat && kind != 24 ==> result1 == errUnsupportedType && result0 == nil
+// validateAndSetValue / setValue: nothing is stored unless the conversion succeeded (and, for validateAndSetValue,
+// range= accepted the converted value); the store is the overflow-checked setMatchedPrimitiveValue.
+//@ func validateAndSetValue
+//@   prop C05
+//@   opaque convertType, validateValueRange, setMatchedPrimitiveValue
+//@   ensures [unsettable] !ret(CanSet) ==> result == errValueNotSettable && calls(setMatchedPrimitiveValue) == 0
+//@   ensures [conversion-error-not-stored] ret(CanSet) && ret(convertType, 1) != nil ==> result == ret(convertType, 1) && calls(setMatchedPrimitiveValue) == 0
+//@   ensures [out-of-range-not-stored] ret(CanSet) && ret(convertType, 1) == nil && ret(validateValueRange) != nil ==> result == ret(validateValueRange) && calls(setMatchedPrimitiveValue) == 0
+//@   ensures [checked-store-of-the-converted-value] ret(CanSet) && ret(convertType, 1) == nil && ret(validateValueRange) == nil ==> calls(setMatchedPrimitiveValue, kind, value, ret(convertType, 0)) == 1 && result == ret(setMatchedPrimitiveValue) && calls(convertType, kind, str) == 1 && calls(validateValueRange, ret(convertType, 0), opts) == 1
+//@ func setValue
+//@   prop C05
+//@   opaque convertType, setMatchedPrimitiveValue, ensureValue
+//@   ensures [unsettable] !ret(CanSet) ==> result == errValueNotSettable && calls(setMatchedPrimitiveValue) == 0
+//@   ensures [conversion-error-not-stored] ret(CanSet) && ret(convertType, 1) != nil ==> result == ret(convertType, 1) && calls(setMatchedPrimitiveValue) == 0
+//@   ensures [checked-store-of-the-converted-value] ret(CanSet) && ret(convertType, 1) == nil ==> calls(setMatchedPrimitiveValue) == 1 && arg(setMatchedPrimitiveValue, 0) == kind && arg(setMatchedPrimitiveValue, 2) == ret(convertType, 0) && result == ret(setMatchedPrimitiveValue) && calls(convertType, kind, str) == 1
+// processNamedField: the document is looked up under the canonical form of the tag's key; absent => the
+// default / optional / required decision, present => the value path; an environment override wins.
+//@ func (*Unmarshaler).processNamedField
+//@   prop C05
+//@   opaque parseOptionsWithContext, join, Env, processFieldWithEnvValue, createValuer, getValue, processNamedFieldWithoutValue, processNamedFieldWithValue
+//@   requires u != nil
+//@   ensures [tag-error] ret(parseOptionsWithContext, 2) != nil ==> result == ret(parseOptionsWithContext, 2) && calls(getValue) == 0
+//@   ensures [absent-goes-to-default-decision] calls(getValue) == 1 && !ret(getValue, 1) ==> calls(u.processNamedFieldWithoutValue) == 1 && calls(processNamedFieldWithValue) == 0 && result == ret(processNamedFieldWithoutValue)
+//@   ensures [present-goes-to-value-path] calls(getValue) == 1 && ret(getValue, 1) ==> calls(u.processNamedFieldWithValue) == 1 && calls(processNamedFieldWithoutValue) == 0 && result == ret(processNamedFieldWithValue) && arg(processNamedFieldWithValue, 3).value == ret(getValue, 0) && arg(processNamedFieldWithValue, 4) == ret(parseOptionsWithContext, 0)
+//@   ensures [canonicalised-once] calls(getValue) == 1 && u.opts.canonicalKey != nil ==> calls(u.opts.canonicalKey) == 1
+//@   ensures [canonicalised-the-tag-key] calls(getValue) == 1 && u.opts.canonicalKey != nil ==> arg(u.opts.canonicalKey, 0) == ret(parseOptionsWithContext, 0)
+//@   ensures [looked-up-under-canonical-key] calls(getValue) == 1 && u.opts.canonicalKey != nil ==> arg(getValue, 1) == ret(u.opts.canonicalKey)
+//@   ensures [looked-up-under-key] calls(getValue) == 1 && u.opts.canonicalKey == nil ==> arg(getValue, 1) == ret(parseOptionsWithContext, 0)
